@@ -4,6 +4,7 @@ package main
 // fault scenarios against the real client; the lifecycle actions each scenario forces are replayed by Model/Life.v.
 
 import (
+	"context"
 	"fmt"
 	"os"
 	"strings"
@@ -263,6 +264,7 @@ func runC14(r *Run) {
 	}
 	// dispatcher busy in a handler, frames queued, then Close
 	{
+		busyBaseAll := settleAll()
 		entered := make(chan struct{}, 1)
 		release := make(chan struct{})
 		s, err := openSessionPrep("tcp", 1, func(tc *testClient) {
@@ -276,7 +278,7 @@ func runC14(r *Run) {
 			})
 		}, client.DialTimeout(fDial))
 		if err == nil {
-			f := &fsession{s, settle() - 3, -1}
+			f := &fsession{s, settle() - 3, busyBaseAll}
 			for i := 0; i < 4; i++ {
 				s.lk.sendFrame(pushFrame(1, 50, []byte{byte(i)}))
 			}
@@ -651,6 +653,43 @@ func runC16(r *Run) {
 		r.nothingLeft(f, "tcp rejected attempt then ok, then Close")
 		f.close()
 	}
+	// the connection closes while its dispatcher is inside a handler and frames are queued behind it (TCP and WebSocket)
+	for _, trans := range []string{"tcp", "ws"} {
+		for _, how := range []string{"user Close", "peer drop, recovery, then Close"} {
+			baseAll := settleAll()
+			for i := 0; i < 3; i++ {
+				s, err := openSessionPrep(trans, 1, func(tc *testClient) {
+					first := true
+					tc.cli.Subscribe(50, func(p *protocol.Packet) {
+						if first {
+							first = false
+							time.Sleep(250 * time.Millisecond)
+						}
+					})
+				}, client.DialTimeout(fDial))
+				if err != nil {
+					continue
+				}
+				for k := 0; k < 3; k++ {
+					s.lk.sendFrame(pushFrame(1, 50, []byte{byte(k)}))
+				}
+				time.Sleep(80 * time.Millisecond)
+				if how == "user Close" {
+					s.tc.cli.Close(nil)
+				} else {
+					s.lk.drop()
+					waitUntil(2*time.Second, func() bool { return s.tc.reconCount() >= 1 })
+					s.tc.cli.Close(nil)
+				}
+				s.close()
+			}
+			if !waitUntil(3*time.Second, func() bool { return settleAll() <= baseAll }) {
+				r.violate(Violation{What: fmt.Sprintf("%d library goroutines left after 3 cycles in which the connection closed while its dispatcher was busy with frames queued", settleAll()-baseAll),
+					Case: trans + ": " + how, Extra: libStacks(4000)})
+			}
+			r.st.Evaluations++
+		}
+	}
 	for i := 0; i < 3; i++ { // Close while a recovery dial waits for a late upgrade answer (WebSocket)
 		r.closeDuringSlowUpgrade()
 	}
@@ -749,6 +788,29 @@ func runC06(r *Run) {
 			r.emit("wt.run S R0 W0.1 T0", resultStr(res)+" | nr=0 dup=0 unsup=0", true)
 			f.close()
 		}
+	}
+	// the caller's context has a deadline of its own, later than the request timeout: the request timeout still bounds the call
+	if f, err := openF("tcp"); err == nil {
+		ctx, cancel := context.WithTimeout(context.Background(), 20*time.Second)
+		ch := make(chan doResult, 1)
+		go func() {
+			var rr doResult
+			t0 := time.Now()
+			func() {
+				defer func() {
+					if e := recover(); e != nil {
+						rr.panic = fmt.Sprint(e)
+					}
+				}()
+				rr.pkt, rr.err = f.tc.cli.Do(ctx, &client.Request{Cmd: 30}, client.RequestTimeout(fReq))
+			}()
+			rr.dur = time.Since(t0)
+			ch <- rr
+		}()
+		f.lk.nextRequest(time.Second)
+		r.boundedDo(f, ch, "tcp silence, caller context with a 20 s deadline and RequestTimeout(300ms)")
+		cancel()
+		f.close()
 	}
 	// drop after every byte k of the response frame
 	frame := respFrame(1, 30, 1, 0, []byte("response-body"))
